@@ -399,8 +399,8 @@ Proof. intros WF. pose proof WF as [ND _]. unfold cyclicb. destruct (self_loop G
     + destruct (kahn all_down_r G) as [[|]|] eqn:EK; tauto.
     + rewrite (proj2 K AC). split; [discriminate|]. intros C; exfalso; auto. Qed.
 
-Theorem decider_sound G out : wf_refs G -> check_C15 G out = true -> C15_holds G out.
-Proof. intros WF H. unfold check_C15 in H. apply andb_true_iff in H. destruct H as [H1 H2].
+Theorem decider_sound G out : wf_refs G -> check_C15g G out = true -> C15_holds G out.
+Proof. intros WF H. unfold check_C15g in H. apply andb_true_iff in H. destruct H as [H1 H2].
   apply Bool.eqb_prop in H1. unfold C15_holds. split. { rewrite H1. apply cyclicb_spec; auto. }
   destruct out as [l|e].
   - split; [discriminate|]. split; [discriminate|]. intros l' E; inversion E; subst l'.
@@ -417,3 +417,32 @@ Proof. intros WF Hf. pose proof WF as [ND _]. split.
   - apply reach_set_total; auto. destruct Hf as [-> | ->].
     + apply (up_outside G r_down ND (wf_down G WF)).
     + apply (up_outside G all_down_r ND (wf_all_down G WF)). Qed.
+
+(* ---------- depends_on as written (ids or labels) ---------- *)
+Lemma id_graph_ids R : ids (id_graph R) = ids (resolve_graph R).
+Proof. unfold ids, id_graph, resolve_graph. rewrite !map_map. apply map_ext. intros [r raw]. reflexivity. Qed.
+
+Lemma id_graph_sub R x y : NoDup (ids (resolve_graph R)) -> In y (all_down (id_graph R) x) -> In y (all_down (resolve_graph R) x).
+Proof. intros ND H. apply of_rev_In in H. destruct H as [r [Hr [Hid Hy]]].
+  unfold id_graph in Hr. apply in_map_iff in Hr. destruct Hr as [[r0 raw] [E Hin]]. subst r. cbn [r_id] in Hid.
+  set (r' := mkRev (r_id r0) (r_down r0) (flat_map (resolve_dep (map fst R)) raw) (r_ndeps r0) (r_labels r0)).
+  assert (In r' (resolve_graph R)) as Hr'. { unfold resolve_graph. apply in_map_iff. exists (r0, raw). auto. }
+  rewrite <- Hid. change (r_id r0) with (r_id r'). apply of_rev_intro; auto.
+  unfold all_down_r in *. cbn [r_down r_deps] in *. rewrite dedupe_In, in_app_iff in *. destruct Hy as [Hy|Hy]; auto. right.
+  apply in_flat_map in Hy. destruct Hy as [[b z] [Hd Hz]]. apply in_flat_map. exists (b, z). split; auto.
+  cbn [fst snd] in Hz. destruct b; [destruct Hz|]. unfold resolve_dep. exact Hz. Qed.
+
+Theorem raw_model_holds R : wf_refs (resolve_graph R) -> C15_holds (resolve_graph R) (load_raw R).
+Proof. intros WF. pose proof WF as [ND _]. set (G := resolve_graph R) in *. unfold load_raw. fold G.
+  assert (NoDup (ids (id_graph R))) as NDi by (rewrite id_graph_ids; exact ND).
+  destruct (self_loop (id_graph R)) as [e|] eqn:ES.
+  - destruct (self_loop_cyclic (id_graph R) e NDi ES) as [He C].
+    assert (cyclic (all_down G)) as CG. { eapply cyclic_mono; [|exact C]. intros x y. apply id_graph_sub; auto. }
+    unfold C15_holds. split; [destruct He as [-> | ->]; simpl; tauto|].
+    split; [destruct He as [-> | ->]; discriminate|]. split; [destruct He as [-> | ->]; discriminate|]. intros l E; discriminate.
+  - destruct (cyclic_dec (all_down G) G ND) as [C|AC]. { apply of_rev_notin. }
+    + destruct (detect_cycles_cyclic G WF C) as [-> | ->]; unfold C15_holds; simpl;
+        (split; [tauto|]; split; [discriminate|]; split; [discriminate|]; intros l E; discriminate).
+    + rewrite (detect_cycles_acyclic G WF AC). unfold C15_holds. simpl. split; [split; [discriminate|tauto]|].
+      split; [discriminate|]. split; [discriminate|]. intros l E. inversion E; subst; cbn [l_heads l_real_heads l_bases l_real_bases].
+      split; [apply heads_of_spec|]. split; [apply real_heads_of_spec|]. split; [apply bases_of_spec|apply real_bases_of_spec]. Qed.
